@@ -52,7 +52,7 @@ func init() {
 		Plan: func(tier string, seed int64) *harness.Plan {
 			reps := size(tier, 20, 60)
 			return &harness.Plan{
-				N:        size(tier, 12000, 100000),
+				N:        size(tier, 12000, 600000),
 				Setup:    func(c *harness.Ctx) { hooksOn() },
 				Run:      func(c *harness.Ctx, k int) { runC07(c, reps) },
 				Finish:   reportHooks,
